@@ -125,6 +125,11 @@ impl Monitor for C01 {
             if first.reqs.len() > 1 && h % 8 == 0 {
                 first.reqs.pop();
             }
+            if h % 16 == 4 && !c.u.vsets.is_empty() {
+                // an unrelated problem first: two arbitrary version sets of the universe
+                let nv = c.u.vsets.len() as u64;
+                first = Prob { reqs: vec![Req::Single((h / 7 % nv) as u32), Req::Single((h / 97 % nv) as u32)], cons: vec![], soft: vec![] };
+            }
             let _ = sess.solve(&first);
             ctx.rep.evaluations += 1;
             let out = sess.solve(&c.p);
